@@ -34,6 +34,11 @@ class Finding:
                 'why': self.why, 'file': self.relpath, 'line': self.line}
 
 
+def _visited():
+    from .xlate import VISITED
+    return set(VISITED)
+
+
 class Run:
     def __init__(self, prop, tier='quick', seed=0, repo=None):
         self.prop = prop
@@ -198,6 +203,11 @@ class Run:
             'violations': [f.as_dict() for f in viol],
             'undecided': self.undecided,
             'functions_analysed': sorted(self.functions),
+            # what the abstract interpreter actually entered in this run, and what a rule names without interpreting it
+            # (tables folded, syntax inspected): the second list is where a claim could go stale
+            'functions_interpreted': sorted(_visited()),
+            'functions_named_not_interpreted': sorted(q for q in self.functions
+                                                      if q.split('.')[-1] not in {v.split('.')[-1] for v in _visited()}),
             'call_sites': self.call_sites,
             'tables': sorted(self.tables),
             'floors': self.floors,
